@@ -840,7 +840,11 @@ func runC36(tier, replay string) {
 		if d != nil {
 			failuresBySig[d.Signature]++
 			r.Count("divergent_cases", 1)
-			r.Violation(d.Signature, d.What, map[string]any{"case": cs, "divergence": d})
+			if failuresBySig[d.Signature] <= 3 { // a few witnesses per signature are enough
+				r.Violation(d.Signature, d.What, map[string]any{"case": cs, "divergence": d})
+			}
+		} else if err == nil {
+			r.Count("cases_checked_to_the_end_without_divergence", 1)
 		}
 		return d
 	}
